@@ -106,7 +106,7 @@ func families() []family {
 	}
 	// JSON endpoints on the verified session
 	for _, x := range []cb{{"invalid-json", 8}, {"wrong-types", 22}, {"huge-numbers", 10}, {"deep-nesting", 12}, {"duplicate-keys", 4},
-		{"huge-array", 3}, {"c12-values", len(c12Values) * 10}, {"composite-twice", 10}, {"big-body", 2}, {"ev-types", 7}, {"random-bytes", 4}} {
+		{"huge-array", 3}, {"c12-values", len(c12Values) * 10}, {"composite-twice", 10}, {"big-body", 2}, {"ev-types", 7}, {"entry-mix", 216}, {"random-bytes", 4}} {
 		fs = append(fs, family{[]string{"verified"}, "characteristics-put", x.c, x.n, 3})
 	}
 	for _, x := range []cb{{"invalid-json", 4}, {"wrong-types", 12}, {"huge-numbers", 4}, {"deep-nesting", 4}, {"valid", 2}, {"random-bytes", 3}} {
